@@ -68,7 +68,8 @@ def make_env(job: str, cfg: dict):
 
 
 def damage_numbers(x, key=None, path=(), out=None) -> dict:
-    """every numeric leaf whose own key (for list elements: the key of the list) contains 'damage'"""
+    """every numeric leaf whose own key (for list elements: the key of the list) contains 'damage', and every
+    numeric field of a skill's `modifier` block"""
     if out is None:
         out = {}
     if isinstance(x, dict):
@@ -78,7 +79,9 @@ def damage_numbers(x, key=None, path=(), out=None) -> dict:
         for i, v in enumerate(x):
             damage_numbers(v, key, path + (i,), out)
     elif isinstance(x, (int, float)) and not isinstance(x, bool):
-        if key is not None and "damage" in key:
+        # a skill's `modifier` is a stat block applied to every hit of the skill (final damage, defence ignore, ...):
+        # all of its fields are damage figures too
+        if key is not None and ("damage" in key or "modifier" in path):
             out[path_text(path)] = x
     return out
 
